@@ -2,7 +2,7 @@
 import ast
 import z3
 from .common import lemma, structural, as_bool
-from pyvc.values import Obj, to_real
+from pyvc.values import Obj, to_real, to_int
 
 PROP = 'C12'
 LEVEL = 'proof'
@@ -110,6 +110,32 @@ def register(reg):
     reg.contract(E, "EFITEquilibrium.map2d", PROP, sorts={"profile": "ref:Function1D!", "value_outside_lcfs": "real"}, result='ref:Function2D',
         ensures=[("construction", map2d_post)])
 
+    # array profile (2 x N: first row psi_n, second row values): the 1D interpolant is built on (profile[0, :], profile[1, :]), for every N
+    def map2d_array_post(P):
+        c = P.calls('construct:Interpolator1DArray')
+        i = P.calls('construct:IsoMapper2D')
+        ok = len(c) == 1 and len(i) == 1
+        out = [("map2d.array.constructs", z3.BoolVal(ok))]
+        if not ok:
+            return out
+        prof = P.value("profile")
+        def row(v, k):
+            # a row view of the caller's array: v is profile[k, :]
+            return z3.BoolVal(bool(isinstance(v, Obj) and v.view is not None and v.view[0].ref.eq(prof.ref) and v.view[1] == 'row'
+                                   and z3.is_int_value(z3.simplify(to_int(v.view[2]))) and z3.simplify(to_int(v.view[2])).as_long() == k))
+        out.append(("map2d.array.abscissa_is_first_row", row(c[0].args[0], 0)))
+        out.append(("map2d.array.values_are_second_row", row(c[0].args[1], 1)))
+        out.append(("map2d.array.iso_mapper_uses_interpolant", as_bool(P.eng.identical(i[0].args[1], c[0].result))))
+        return out
+    reg.contract(E, "EFITEquilibrium.map2d", PROP, name='array', sorts={"profile": "arr:real:2", "value_outside_lcfs": "real"}, result='ref:Function2D',
+        requires=["not is_none(profile)", "not isinst(profile, 'Function1D')"],
+        externals={'array': {'kind': 'custom', 'fn': lambda eng, st, fr, recv, args, kwargs: args[0], 'doc': 'numpy.array(x, float64) of an array: same contents'},
+                   'Interpolator1DArray()': {'kind': 'logged', 'result': 'ref:Function1D', 'alloc': True, 'label': 'construct:Interpolator1DArray',
+                                             'doc': 'raysect 1D interpolator (x, f, kind, extrapolation, range)'},
+                   '.transpose': {'kind': 'pure', 'result': 'arr:real:2', 'doc': 'numpy transpose (a different array)'},
+                   'callable': {'kind': 'custom', 'fn': lambda eng, st, fr, recv, args, kwargs: False, 'doc': 'an ndarray is not callable'}},
+        ensures=[("array_profile", map2d_array_post)])
+
     def map3d_post(P):
         a = P.calls('construct:AxisymmetricMapper')
         m = P.calls('map2d')
@@ -171,3 +197,40 @@ def _lemmas(ctx):
 
 
 LEMMAS = [_lemmas]
+
+
+def native_replay(ctx, o):
+    """map2d / map3d obligations: 2 x N array profiles (N = 2..6, linear and non-monotone values) mapped on the bundled example equilibrium
+    are compared, inside the LCFS, with the same interpolator built directly on the two rows and evaluated at psi_normalised(r, z)."""
+    if '.map2d' not in o.name and '.map3d' not in o.name:
+        return None
+    from replaylib.native import run_native
+    code = """
+import numpy as np
+from raysect.core.math.function.float import Interpolator1DArray
+from cherab.tools.equilibrium import example_equilibrium
+eq = example_equilibrium()
+bad = []
+rmin, rmax = eq.r_range; zmin, zmax = eq.z_range
+pts = [(r, z) for r in np.linspace(rmin, rmax, 14)[1:-1] for z in np.linspace(zmin, zmax, 14)[1:-1]]
+for n in range(2, 7):
+    psin = np.linspace(0.0, 1.0, n)
+    for values in (5.0 + 5.0 * psin, 3.0 - 2.0 * psin ** 2 + np.cos(7 * psin)):
+        prof = np.array([psin, values])
+        ref = Interpolator1DArray(psin, values, 'cubic', 'none', 0)
+        try:
+            f2, f3 = eq.map2d(prof, -7.5), eq.map3d(prof, -7.5)
+        except Exception as e:
+            bad.append({"N": n, "profile": prof.tolist(), "error": repr(e)[:100]}); continue
+        for r, z in pts:
+            want = ref(min(max(eq.psi_normalised(r, z), 0.0), 1.0)) if eq.inside_lcfs(r, z) > 0 else -7.5
+            got2, got3 = f2(r, z), f3(r * np.cos(0.7), r * np.sin(0.7), z)
+            if abs(got2 - want) > 1e-9 * max(1, abs(want)) or abs(got3 - want) > 1e-9 * max(1, abs(want)):
+                bad.append({"N": n, "profile": prof.tolist(), "r": r, "z": z, "map2d": got2, "map3d": got3, "expected": want}); break
+print(json.dumps({"bad": bad[:3], "nbad": len(bad)}))
+"""
+    out = run_native(ctx, code, timeout=600)
+    exp = 'mapped value = interpolant of (row 0, row 1) at psi_normalised inside the LCFS, the outside value elsewhere'
+    if out and out.get('nbad'):
+        return {'confirmed': True, 'input': out['bad'][0], 'observed': out, 'expected': exp}
+    return {'confirmed': False, 'input': None, 'observed': out, 'expected': exp}
